@@ -39,6 +39,23 @@
 (***************************************************************************)
 EXTENDS Naturals, Sequences
 
+(* ------------------------------ configurations ------------------------ *)
+\* The property quantifies over configurations too: a template is compiled by an engine, and an
+\* engine in debug mode (Engine(debug=True), settings.DEBUG) annotates every exception that
+\* leaves the compilation with the position of the error (template_debug) - code that only runs
+\* in that mode and only on the error path.  The outcome set is the same in every mode:
+\* ParseOutcomes, within the time bound.  So every source is compiled once per engine mode;
+\* parse_tag(text) involves no engine.  Channel names: the plain mode has no suffix.
+EngineModes == <<"plain", "debug">>
+ChanName(c, mode) == IF mode = "plain" THEN c ELSE c \o "+" \o mode
+RECURSIVE PerMode(_)
+PerMode(cs) == IF cs = <<>> THEN <<>>
+               ELSE <<ChanName(Head(cs), EngineModes[1]), ChanName(Head(cs), EngineModes[2])>> \o PerMode(Tail(cs))
+\* what has to be observed for a tag text (parse_tag, the @template_tag tag, the component tag)
+\* and for a template source
+TagChannels == <<"parse_tag">> \o PerMode(<<"probe", "comp">>)
+TplChannels == PerMode(<<"template">>)
+
 (* ------------------------------ pumping -------------------------------- *)
 RECURSIVE Rep(_, _)
 Rep(u, k) == IF k = 0 THEN <<>> ELSE u \o Rep(u, k - 1)
